@@ -1639,7 +1639,7 @@ def sched_cfg(Sess=("s1", "s2"), LoVals=(1,), MaxMsgs=3, MaxOpsPerReq=2, WithFlu
 
 def sched_attr(comp):
     return {"schedCur": {"C05", "C04", "C11"}, "schedMaster": {"C05", "C04", "C11"}, "schedLast": {"C04", "C11"}, "schedSessions": {"C09", "C10", "C11"},
-            "schedRib": {"C04", "C11"}, "schedReplies": {"C04", "C05", "C06", "C11"}, "schedFlushVerdict": {"C08", "C11"},
+            "schedRib": {"C04", "C11", "C01"}, "schedReplies": {"C04", "C05", "C06", "C11", "C01"}, "schedFlushVerdict": {"C08", "C11"},
             "schedStall": {"C11", "C10"}, "schedHang": {"C11", "C10"}, "schedNotEnabled": {"C11"}, "schedSetup": {"C11"}}.get(comp, set())
 
 
@@ -2319,6 +2319,18 @@ def c06_directed(ctx):
                  {"a": "get", "g": {"ni": "*", "aft": "ALL"}},
                  _msg("s1", {"k": "ops", "ops": [_op(32, "DEFAULT", "ADD", "nh", 6)]})]
             out.append(json.dumps(w))
+    # an operation held while its session raises its own election id: the dependency arrives under the new id and the held
+    # operation is programmed and acknowledged then (transitively: entry -> group -> next-hop)
+    for ack in ("RIB", "RIB_FIB"):
+        w = [{"a": "sreset", "nis": ["DEFAULT", "vrf1"], "fwd": True}, {"a": "open", "s": "s1"},
+             _msg("s1", {"k": "params", "red": "SINGLE_PRIMARY", "per": "PRESERVE", "ack": ack}), _msg("s1", {"k": "elec", "id": [0, 1]}),
+             _msg("s1", {"k": "ops", "ops": [_op(1, "DEFAULT", "ADD", "v4", "k1", g=1, eid=(0, 1))]}),
+             _msg("s1", {"k": "ops", "ops": [_op(2, "DEFAULT", "ADD", "nhg", 1, nhs=(1,), eid=(0, 1))]}),
+             _msg("s1", {"k": "elec", "id": [0, 2]}),
+             _msg("s1", {"k": "ops", "ops": [_op(3, "DEFAULT", "ADD", "nh", 1, eid=(0, 2))]}),
+             {"a": "get", "g": {"ni": "*", "aft": "ALL"}},
+             _msg("s1", {"k": "ops", "ops": [_op(4, "DEFAULT", "ADD", "nh", 2, eid=(0, 2))]})]
+        out.append(json.dumps(w))
     return out
 
 
@@ -2538,3 +2550,15 @@ def c12_rib_directed(ctx):
 
 
 REGISTRY["C12"].parts[0].directed = c12_rib_directed
+
+
+# C02 at the server: held operations across election updates and sessions (directed histories; the server family's own
+# small instances keep the part cheap)
+_c02_srv = ServerFamily("C02",
+    mc={"quick": [dict(MaxMsgs=5, MaxOpen=1, HiVals=(0,), LoVals=(1, 2), OpShapes="chain", StampModes=("last",), AckModes=("RIB",))],
+        "thorough": [dict(MaxMsgs=7, MaxOpen=2, HiVals=(0,), LoVals=(1, 2), OpShapes="chain", StampModes=("last",), AckModes=("RIB",))]},
+    sims={"quick": [(_S_SIM_OPS, 60, 300)], "thorough": [(_S_SIM_OPS, 2000, 400)]},
+    exh={"quick": [], "thorough": []}, random_cfg=_rnd(["ops"], 30, 400), directed=c06_directed)
+REGISTRY["C02"] = CompositeFamily("C02", REGISTRY["C02"].parts + [_c02_srv])
+# C01: an operation applied under its request's snapshot is answered as applied, whatever other handlers did meanwhile
+REGISTRY["C01"] = CompositeFamily("C01", REGISTRY["C01"].parts + [SchedFamily("C01")])
